@@ -88,11 +88,23 @@ def gen_cases(rng, tier):
         }
         if name == "moasha":
             spec["modes"] = [rng.choice(["min", "max"]), rng.choice(["min", "max"])]
+        if name in ("moasha", "median", "hb-stopping", "hb-rush_stopping"):
+            spec["p_early"] = rng.choice([0, 0.05, 0.1])   # scripts that end by themselves before max_t
         if name in ("sync-hb", "dehb"):
             spec["extra"]["brackets"] = rng.choice([None, 1, 2])
+        if name == "sync-hb":
+            spec["p_fail"] = rng.choice([0, 0.05, 0.15])   # failed jobs rank last in either mode
         if name == "hb-pasha":
             spec["extra"]["brackets"] = 1
         yield spec
+    # MOASHA with per-metric modes, scripts that often end by themselves (their last result then arrives through
+    # on_trial_complete and is recorded at its rung like any other)
+    for _ in range(8 if tier == "quick" else 80):
+        yield {"name": "moasha", "sched_seed": rng.randrange(10 ** 6), "seed": rng.randrange(10 ** 9),
+               "cs_kind": rng.choice(["mixed", "cont", "finite"]), "n_workers": rng.randint(2, 5),
+               "max_events": 120 if tier == "quick" else 250, "style": "distinct", "p_fail": 0, "p_early": rng.choice([0.1, 0.2]),
+               "max_t": rng.choice([9, 27]), "extra": {"brackets": rng.choice([1, 1, 2]), "reduction_factor": rng.choice([2, 3])},
+               "modes": [rng.choice(["min", "max"]), rng.choice(["min", "max", "max"])]}
     # best-configuration reporting: TuningStatus / print_best_metric_found and ExperimentResult.best_config
     for _ in range(12 if tier == "quick" else 150):
         yield {"status": True, "seed": rng.randrange(10 ** 9), "n_trials": rng.randint(1, 8),
